@@ -2,8 +2,10 @@ import PlinioVerif.Model.Proto
 import PlinioVerif.Model.Observers
 /-! Line driver for the C18 correspondence.
 
-`walk pinned=0 method=<pit|mps|sn> gumbel= hard= disable= full= fixed= add= bn= drop= train=<0|1> spec=<s0|s1|d0|d1>
-      ops=[forward,export,exportnobn,summary,cost,getcost,set:d1,...]`
+`walk pinned=0 method=<pit|mps|sn> gumbel= hard= disable= full= fixed= add= bn= drop= train=<0|1> bnmode=<0|1>
+      dropmode=<0|1> spec=<s0|s1|d0|d1> ops=[forward,export,exportnobn,summary,cost,getcost,getcostb,set:d1,...]`
+(`train` = mode of the wrapper and of the sampling modules, `bnmode` / `dropmode` = mode of the BatchNorm /
+Dropout sub-modules: mixed modes are legal starting states)
 
 answers, for every call of the walk, `<components changed, comma separated, or ->:<output class>`
 joined by single spaces.  Components: modes, theta, rng, state, attrs, spec, flags.  Output class:
@@ -19,6 +21,7 @@ def parseOp? (t : String) : Option Op :=
   if t = "forward" then some .forward else if t = "export" then some .exportNet
   else if t = "exportnobn" then some .exportNoBn else if t = "summary" then some .summary
   else if t = "cost" then some .cost else if t = "getcost" then some .getCost
+  else if t = "getcostb" then some .getCostB
   else if t.startsWith "set:" then (parseSpec? (t.drop 4).toString).map .setSpec
   else none
 
@@ -49,12 +52,13 @@ def handle (line : String) : String :=
   | some "walk" =>
     match (field? toks "method").bind parseMethod?, b "gumbel", b "hard", b "disable", b "full", b "fixed",
           b "add", b "bn", b "drop", b "train", (field? toks "spec").bind parseSpec?,
-          (field? toks "ops").bind (parseList? parseOp?), b "pinned" with
-    | some m, some g, some h, some d, some f, some fx, some ad, some bn, some dr, some tr, some sp, some ops, some pinned =>
+          (field? toks "ops").bind (parseList? parseOp?), b "pinned", b "bnmode", b "dropmode" with
+    | some m, some g, some h, some d, some f, some fx, some ad, some bn, some dr, some tr, some sp, some ops,
+      some pinned, some bm, some dm =>
       let c : Cfg := ⟨m, g, h, d, f, fx, ad, bn, dr⟩
-      let s0 : State := ⟨tr, tr, ⟨false, none⟩, 0, 0, 0, false, sp, 0⟩
+      let s0 : State := ⟨tr, tr, bm, dm, ⟨false, none⟩, 0, 0, 0, false, sp, 0⟩
       " ".intercalate (walk (if pinned then stepPinned else step) c s0 [] ops)
-    | _, _, _, _, _, _, _, _, _, _, _, _, _ => "bad-request"
+    | _, _, _, _, _, _, _, _, _, _, _, _, _, _, _ => "bad-request"
   | _ => "bad-request"
 
 def main : IO Unit := runDriver handle
